@@ -1251,8 +1251,11 @@ def check_c09(ix, cfg):
         ds = ix.deliveries.get(pos, [])
         # hang / odd raise
         for d in ds:
-            if d["how"] == "raise" and d["cls"] not in ("CallableRuntimeError",) and not d.get("inv_level"):
-                out.append(V("C09", "raised-for-valid-input", f"{pos}: {st['op']} of {n} items raised {d['cls']}: {d['msg']}", pos=pos, seq=d["s1"], n=n))
+            if d["how"] == "raise" and not d.get("inv_level") and d["cls"] not in ("ExecutionError",):
+                hs0 = ix.hist_status(d["inv"], ix.pos_id(pos)) if ix.pos_id(pos) else None
+                if hs0 not in TERMINAL:
+                    out.append(V("C09", "raised-for-valid-input", f"{pos}: {st['op']} of {n} items raised {d['cls']}: {d['msg']}", pos=pos,
+                                 seq=d["s1"], n=n))
         first_ret = {}
         for d in ds:
             if d["how"] == "ret" and d["inv"] not in first_ret:
@@ -1272,9 +1275,11 @@ def check_c09(ix, cfg):
             fail = sum(1 for it in items if it[1] == "FAILED")
             started = sum(1 for it in items if it[1] == "STARTED")
             # (5) reason consistent with statuses
+            shape = ("min" if cc.get("min") is not None else "nomin") + "/" + \
+                ("tol" if (cc.get("tol") is not None or cc.get("pct") is not None) else "notol") + "/" + ("fail" if fail else "nofail")
             if reason == "ALL_COMPLETED" and started:
                 out.append(V("C09", "reason-inconsistent", f"{pos}: ALL_COMPLETED with {started} STARTED items (config {cc})", pos=pos, seq=d["s1"],
-                             reason=reason))
+                             reason=reason, shape=shape))
             if reason == "MIN_SUCCESSFUL_REACHED" and (cc.get("min") is None or succ < cc["min"]):
                 out.append(V("C09", "reason-inconsistent", f"{pos}: MIN_SUCCESSFUL_REACHED with {succ} successes, min {cc.get('min')}", pos=pos,
                              seq=d["s1"], reason=reason))
